@@ -7,6 +7,7 @@ import (
 	"errors"
 	"fmt"
 	"io"
+	"reflect"
 
 	gots "github.com/Comcast/gots/v2"
 	"github.com/Comcast/gots/v2/packet"
@@ -184,7 +185,23 @@ func (s *stalling) Read(p []byte) (int, error) {
 
 // the reader's own failure comes in several kinds: a plain error, errors that wrap io.EOF or
 // io.ErrUnexpectedEOF, and the bare io.ErrUnexpectedEOF (what a truncated decompressor returns)
-var readerErrs = []error{errR, fmt.Errorf("connection lost: %w", io.EOF), fmt.Errorf("truncated member: %w", io.ErrUnexpectedEOF), io.ErrUnexpectedEOF}
+var readerErrs = []error{errR, fmt.Errorf("connection lost: %w", io.EOF), fmt.Errorf("truncated member: %w", io.ErrUnexpectedEOF), io.ErrUnexpectedEOF, multiErr{errR, io.EOF}}
+
+// multiErr is an error whose dynamic type is a slice (like go/scanner.ErrorList): it cannot be a map key
+// and cannot be compared with ==.
+type multiErr []error
+
+func (m multiErr) Error() string { return fmt.Sprintf("%d errors, the first: %v", len(m), m[0]) }
+
+// same compares two errors without tripping over uncomparable dynamic types.
+func same(a, b error) (eq bool) {
+	defer func() {
+		if recover() != nil {
+			eq = reflect.DeepEqual(a, b)
+		}
+	}()
+	return a == b
+}
 
 // tempErr is a temporary, net.Error-style failure of the packet writer.
 type tempErr struct{}
@@ -459,7 +476,7 @@ func doReadFrom(c *mon.Ctx, k, tail, failW, failR, rk, ad int, r *gen.Rand) {
 		return
 	}
 	src, rname := mkReaderErr(rk, data, failR, r, rerr)
-	if rerr != errR {
+	if !same(rerr, errR) {
 		rname += fmt.Sprintf(" failing with %q", rerr)
 	}
 	n, err := rf.ReadFrom(src)
@@ -472,7 +489,7 @@ func doReadFrom(c *mon.Ctx, k, tail, failW, failR, rk, ad int, r *gen.Rand) {
 	if failR >= 0 {
 		expErr = rerr
 		c.Count("readfrom.reader_failure")
-		if rerr != errR {
+		if !same(rerr, errR) {
 			c.Count("readfrom.reader_failure_wrapping_eof")
 		}
 	} else if avail%188 != 0 {
@@ -493,19 +510,19 @@ func doReadFrom(c *mon.Ctx, k, tail, failW, failR, rk, ad int, r *gen.Rand) {
 	}
 	wt.Got = fmt.Sprintf("deliveries=%d n=%d err=%v", len(s.got), n, err)
 	// a failing write may itself report bytes written; whether they count is not stated
-	if n != int64(exp*188) && !(expErr == s.werr() && n == int64(exp*188+s.failCnt)) {
+	if n != int64(exp*188) && !(same(expErr, s.werr()) && n == int64(exp*188+s.failCnt)) {
 		c.Fail("ReadFrom:count", fmt.Sprintf("ReadFrom delivered %d packets but returned n=%d", exp, n), wt)
 	}
-	if err != expErr {
+	if !same(err, expErr) {
 		sig := "ReadFrom:error"
-		switch expErr {
-		case rerr:
+		switch {
+		case same(expErr, rerr):
 			sig = "ReadFrom:reader-error-not-returned"
-		case s.werr():
+		case same(expErr, s.werr()):
 			sig = "ReadFrom:writer-error-not-returned"
-		case gots.ErrInvalidPacketLength:
+		case same(expErr, gots.ErrInvalidPacketLength):
 			sig = "ReadFrom:partial-packet-not-reported"
-		case nil:
+		case expErr == nil:
 			sig = "ReadFrom:spurious-error"
 		}
 		c.Fail(sig, fmt.Sprintf("ReadFrom returned err=%v, expected %v (%s)", err, expErr, wt.Want), wt)
@@ -577,6 +594,85 @@ func run(c *mon.Ctx) {
 				doReadFrom(c, k, tail, -1, failR, rk, rk%4, r)
 			}
 		}
+	})
+	// adapters in use at the same time: one feeding another (a packet writer that forwards through a second
+	// adapter), and adapters of their own in several goroutines; some calls fail on the way
+	c.Floor("overlap.nested_writes", 300)
+	c.Floor("concurrent.calls", 5000)
+	c.Stream("overlapping-adapters", c.N(300, 60000), func(i int, r *gen.Rand) {
+		// an earlier failure on some unrelated adapter
+		f := &sink{failAt: r.Intn(3)}
+		fw, _ := adapter(r.Intn(4), f)
+		fw.Write(r.Bytes(188 * (1 + r.Intn(4))))
+		// outer adapter -> forwarding packet writer -> inner adapter -> final sink
+		final := &sink{failAt: -1}
+		inner, _ := adapter(r.Intn(4), final)
+		var seen [][]byte
+		forward := packet.PacketWriterFunc(func(p *packet.Packet) (int, error) {
+			seen = append(seen, append([]byte{}, p[:]...))
+			if _, err := inner.Write(p[:]); err != nil {
+				return 0, err
+			}
+			return packet.PacketSize, nil
+		})
+		outer := packet.IOWriter(forward)
+		k := 1 + r.Intn(6)
+		data := r.Bytes(188 * k)
+		var n int64
+		var err error
+		op := "Write"
+		if r.Bool() {
+			m, e := outer.Write(data)
+			n, err = int64(m), e
+		} else {
+			op = "ReadFrom"
+			n, err = outer.(io.ReaderFrom).ReadFrom(&chunked{bytes.NewReader(data), r, 300})
+		}
+		c.Eval(1)
+		c.Count("overlap.nested_writes")
+		ok := err == nil && n == int64(len(data)) && len(final.got) == k && len(seen) == k
+		for j := 0; ok && j < k; j++ {
+			ok = bytes.Equal(final.got[j], data[j*188:(j+1)*188]) && bytes.Equal(seen[j], data[j*188:(j+1)*188])
+		}
+		if !ok {
+			c.Fail("overlap:adapter-feeding-another-adapter", fmt.Sprintf("%s of %d packets through an adapter whose packet writer forwards each packet through a second adapter (after a failed write on a third, unrelated adapter): n=%d err=%v, %d packets reached the forwarding writer, %d the final sink, or some arrived with other bytes", op, k, n, err, len(seen), len(final.got)), wit{Op: op, Packets: k, FailWrite: -1, FailRead: -1})
+		}
+		if i%20 == 0 {
+			c.Concurrent("adapters of their own (Write / ReadFrom)", 8, 100, r, func(q *gen.Rand) string {
+				s := &sink{failAt: -1}
+				if q.Chance(4) {
+					s.failAt = q.Intn(4)
+				}
+				w, _ := adapter(q.Intn(4), s)
+				k := 1 + q.Intn(5)
+				data := q.Bytes(188 * k)
+				var err error
+				if q.Bool() {
+					_, err = w.Write(data)
+				} else {
+					_, err = w.(io.ReaderFrom).ReadFrom(bytes.NewReader(data))
+				}
+				exp := k
+				if s.failAt == -2 || (s.failAt >= 0 && s.failAt < k) {
+					if err == nil {
+						return "a failing packet write was not reported"
+					}
+					exp = len(s.got)
+				} else if err != nil {
+					return fmt.Sprintf("a clean call of %d packets returned %v", k, err)
+				}
+				if len(s.got) != exp {
+					return fmt.Sprintf("%d packets delivered, %d expected", len(s.got), exp)
+				}
+				for j := range s.got {
+					if !bytes.Equal(s.got[j], data[j*188:(j+1)*188]) {
+						return fmt.Sprintf("packet %d of %d was delivered with other bytes than the corresponding 188 bytes of the input", j, k)
+					}
+				}
+				return ""
+			})
+		}
+		c.Class(fmt.Sprintf("overlap/%s/k=%d", op, min(k, 4)))
 	})
 	c.Stream("random", c.N(6000, 20000000), func(i int, r *gen.Rand) {
 		k := r.Intn(12)
